@@ -27,7 +27,7 @@ PROP = {
             "binding-power table. Every case is non-trivial (nt); distinct = distinct case line.",
     "assumptions": [
         "comparisons across type categories (number / text / boolean) are type errors: the spec rejects the statement statically, the "
-        "engine (since repo d38f132) when the comparison meets two non-NULL values; generated cross-category comparisons are the whole "
+        "engine (since repo 603e883) when the comparison meets two non-NULL values; generated cross-category comparisons are the whole "
         "WHERE of a single-table statement over a row where both sides are non-NULL, before any DML of the case",
         "an arithmetic error (overflow, division by zero, value not fitting the result column) can be raised by at most one clause of a "
         "single-table statement in generated cases: which failing sub-expression is reported, and whether rows that are joined away or cut "
@@ -35,15 +35,15 @@ PROP = {
         "LIMIT/OFFSET are generated only under an ORDER BY over all output columns (otherwise the answer is not unique); under a partial "
         "ORDER BY the answer must be sorted under the spec comparator and equal as a multiset",
         "aggregate queries: select list and HAVING are expressions over the aggregate row (group keys, then aggregates; since repo "
-        "48289eb the engine plans them that way); a column that is neither grouped nor aggregated cannot be written in the case "
+        "eb9b25f the engine plans them that way); a column that is neither grouped nor aggregated cannot be written in the case "
         "syntax; SUM results are only compared / added to, AVG results only shown (they are doubles in the engine); "
-        "sub-queries in expressions are outside the modelled grammar (they answer an error since repo 1374df0); derived tables in "
+        "sub-queries in expressions are outside the modelled grammar (they answer an error since repo 6dee6fb); derived tables in "
         "FROM are modelled in their select-project form (SELECT items FROM f [WHERE w]) AS r, every output column typed; a statement "
         "over a derived table with a WHERE of its own is generated without clauses that can fail (the engine merges the two filters); "
         "CASE (searched and simple) is modelled, but not below a unary minus",
         "string functions UPPER, LOWER, LENGTH, LTRIM, RTRIM and || are modelled on byte strings: letters are the ASCII letters "
         "(generated texts are ASCII; the engine maps non-ASCII letters by Unicode rules), LENGTH counts UTF-8 characters, the trims "
-        "remove spaces only (since repo 225e08d), NULL in gives NULL out (since repo 2f58b65); CONCAT(), COALESCE, NULLIF and the "
+        "remove spaces only (since repo ba55ebb), NULL in gives NULL out (since repo ba327e3); CONCAT(), COALESCE, NULLIF and the "
         "numeric functions are outside the modelled grammar",
         "SUM/AVG return DOUBLE in the engine: compared as exact integers / correctly rounded quotients, for |sum| < 2^53",
         "DOUBLE columns are compare-only: their values (eighths of small integers, written f<IEEE-754 bits>) are stored, compared with each "
